@@ -163,6 +163,20 @@ Theorem C06_basic_latest_users : forall q o alive init pre r post,
 Proof. exact basic_latest_users. Qed.
 Print Assumptions C06_basic_latest_users.
 
+(** several Validator instances / reload generations in one process: the verdict of a step depends on
+    that step's instance configuration and request only (nothing carries over from earlier steps or other
+    instances), and a step admitted by an instance with a jwt method carries the MAC of its token under
+    THAT instance's secret and algorithm *)
+Theorem C06_instances_independent : forall o pre s post c,
+  configured (c_sig (vs_cfg s)) (fun sc => s_keys sc <> []) ->
+  multi_run ideal o (pre ++ s :: post)%list = (multi_run ideal o pre ++ step_outcome ideal o s :: multi_run ideal o post)%list /\
+  (step_outcome ideal o s = Pass -> c_jwt (vs_cfg s) = Some c ->
+   exists tok h cl sg,
+     jwt_token c (vs_req s) = Some tok /\ split_on "."%char tok = [h; cl; sg] /\
+     o_jhdr o h = Some (j_alg c) /\ sg = o_jmac o (j_alg c) (j_secret c) (h ++ "." ++ cl)).
+Proof. exact instances_independent. Qed.
+Print Assumptions C06_instances_independent.
+
 (** ** refutations: with one defect flag on, the property fails on a concrete request
        (injective oracle [toy], see proofs/ValidatorProofsWit.v) *)
 Theorem C06_refuted_sig_verifies_drained_body :
